@@ -276,6 +276,7 @@ func runC04(c *vx.Ctx) {
 	if c.Wants("two-zones") {
 		c04TwoZones(c)
 	}
+	c04MapOrder(c)
 }
 
 func replayC04(c *vx.Ctx, v vx.Violation) string {
@@ -294,6 +295,9 @@ func replayC04(c *vx.Ctx, v vx.Violation) string {
 	}
 	if v.Part == "two-zones" {
 		return c04ReplayTwoZones(raw)
+	}
+	if v.Part == "map-order" {
+		return replayViaVqm(v)
 	}
 	if v.Part == "routing-forks" {
 		var cs map[string]string
